@@ -109,6 +109,8 @@ def target(r):
 
 def imp(r):
     k = r.random()
+    if k < 0.02:                       # the module __future__ imported like any other module (no compiler directive)
+        return r.choice(["import __future__", "import __future__ as ft"])
     mod = r.choice(['pkg', 'os', 'm', 'pkg.sub', 'os.path', 'a.b', 'keyword', 'keyword'] + ([LONGMOD] if r.random() < .15 else [])
                    + (['IPython', 'PIL.Image', '_priv', '__a', 'Zmod', 'A0.b'] if r.random() < .3 else []))
     if k < 0.4:
